@@ -13,8 +13,9 @@ import Pog.Model.Fresh
   What is abstracted: everything of an operation node except `operationId`, `tags` and the KEYS of
   `responses` is folded into the boolean `parseRaises` (= "the node is not a mapping, or a parameter /
   request body / path-level parameter makes the parser raise" — all of these are evaluated before the
-  responses).  `StatusKey.intKey` stands for every non-`str` key `yaml.safe_load` can produce
-  (`200:` → int, but also `1.5:`, `true:`, `~:`): `parse_response` rejects them all alike.
+  responses).  `StatusKey.intKey` is an unquoted integer key (`200:` in YAML): since the repair of F16 the operations parser
+  reads it as the string `"200"`.  `StatusKey.badKey` stands for every other non-`str` key `yaml.safe_load` can produce
+  (`1.5:`, `true:`, `~:`; the payload is the text a JSON rendering would have as key): `parse_response` rejects those.
   Non-ASCII `str.upper()` of the method key enters through `UInfo` (`"poſt".upper() == "POST"`).
 -/
 namespace Pog.Ops
@@ -23,6 +24,7 @@ open Pog
 inductive StatusKey
   | strKey (s : Str)
   | intKey (i : Int)
+  | badKey (r : Str)
   deriving DecidableEq, Repr
 
 /-- The value of the `tags` member: absent, a list of strings, or (document error, accepted by the
@@ -105,8 +107,10 @@ def tagsList : RawTags → List Str
     first `raise` (responses/parser.py:37-44: the code check comes before the id check). -/
 def respError (opId : Str) : List StatusKey → Option DropReason
   | [] => none
-  | .intKey _ :: _ => some .codeNotStr
+  | .badKey _ :: _ => some .codeNotStr
   | .strKey _ :: rest => if opId.isEmpty then some .emptyOpId else respError opId rest
+  -- `sc if isinstance(sc, str) else str(sc)` for ints (operations/parser.py, F16 repaired): the same path as a string key
+  | .intKey _ :: rest => if opId.isEmpty then some .emptyOpId else respError opId rest
 
 inductive OpResult
   | skipped                   -- `continue` without a trace: not an operation
